@@ -117,6 +117,22 @@ Theorem c11_source_stream_noise : forall s v a, (a < length (own_var s))%nat ->
 Proof. exact k_stream_noise_var. Qed.
 Print Assumptions c11_source_stream_noise.
 
+Theorem c11_source_chi2_std : forall m k r, (0 < k)%Z -> (r * r == 2 * inject_Z k)%Q ->
+  (src_chi2_std m k r * src_chi2_std m k r == chi2_var m (inject_Z k))%Q /\ (src_chi2_std_obs m k r == src_chi2_std m k r)%Q.
+Proof. exact k_chi2_std. Qed.
+Print Assumptions c11_source_chi2_std.
+(* noise drawn with no arrays given: every column entry of the bundled table is (table row) * dt / obs_dt -- the same for the three
+   columns, the table itself at the observation's resolution, proportional to dt, and order-preserving (a floor below a mean stays below) *)
+Theorem c11_source_default_table : forall row dt,
+  (src_obs_mean_entry row dt == default_entry row dt)%Q /\ (src_obs_std_entry row dt == default_entry row dt)%Q /\ (src_obs_min_entry row dt == default_entry row dt)%Q.
+Proof. exact k_obs_entries. Qed.
+Print Assumptions c11_source_default_table.
+Theorem c11_default_table_scaling : forall row row' dt c,
+  (default_entry row obs_dt == row)%Q /\ (default_entry row (c * dt) == c * default_entry row dt)%Q /\
+  ((0 <= dt)%Q -> (row <= row')%Q -> (default_entry row dt <= default_entry row' dt)%Q).
+Proof. intros row row' dt c. exact (conj (default_entry_at_obs_dt row) (conj (default_entry_homogeneous row dt c) (default_entry_monotone row row' dt))). Qed.
+Print Assumptions c11_default_table_scaling.
+
 Example c11_example :
   (* a sample with mean 4 and variance 8 (k = 4): [0; 4; 4; 8] -> mean 4, var 8 *)
   let u := [0; 4; 4; 8]%Q in
